@@ -345,6 +345,22 @@ def _program_children(prog_idx):
             continue
         b = e2.bake(pp, vidx, program + [act])
         why = None
+        if not b['ok'] and b['phase'] == 'bake' and isinstance(b['exc'], ValueError):
+            # a recipe with a step that cannot be carried out stays refused however often bake() is called
+            fp = e1.exact_world(b['world'])
+            for attempt in (2, 3):
+                try:
+                    b['recipe'].bake()
+                    why = ('<recipe>', None, f"negative: bake() number {attempt} returned although bake() number 1 was refused "
+                                               f"({b['exc']})")
+                    break
+                except ValueError:
+                    pass
+                except Exception as e:  # noqa
+                    why = ('<recipe>', None, f"negative: bake() number {attempt} raised {type(e).__name__}: {e}")
+                    break
+            if why is None and e1.exact_world(b['world']) != fp:
+                why = ('<recipe>', None, "negative: a refused bake() changed an object handed to uses()")
         if b['ok']:
             for name, o in sorted(b['results'].items()):
                 units = [(None, o)] if not e1.is_plate(o) else [((r + 1, c + 1), o.wells[r, c])
@@ -377,11 +393,12 @@ def recipe_programs(col, pp, vidx, depth):
                     nxt.append(p + (ai,))      # an impossible state is reported once, where it first appears
                 if why:
                     act = voc[ai]
-                    kind = 'negative-contents' if 'negative' in why[2] else 'over-capacity'
+                    kind = 'infeasible-accepted-on-rebake' if why[0] == '<recipe>' else \
+                        'negative-contents' if 'negative' in why[2] else 'over-capacity'
                     sig = f"recipe {act['op']} | {kind} | step={e2.step_kind(act)}"
                     program = [voc[i] for i in p] + [act]
                     col.add([V(sig, f"bake of {[e1.act_str(a) for a in program]} returned {why[0]}"
-                                    f"{'' if why[1] is None else list(why[1])} with {why[2]}",
+                                    f"{'' if why[1] is None else list(why[1])} with {why[2]}".replace('with negative: ', ': '),
                                {'program': program, 'vidx': vidx})])
         frontier = nxt
     col.count('transitions', bakes)
@@ -396,8 +413,21 @@ def replay_program(pp, case):
     _G.update(pp=pp, vidx=case['vidx'], voc=case['program'])
     out = []
     b = e2.bake(pp, case['vidx'], case['program'])
+    act = case['program'][-1]
+    if not b['ok'] and b['phase'] == 'bake':
+        for attempt in (2, 3):
+            try:
+                b['recipe'].bake()
+                out.append(V(f"recipe {act['op']} | infeasible-accepted-on-rebake | step={e2.step_kind(act)}",
+                             f"bake() number {attempt} returned", case))
+                break
+            except ValueError:
+                pass
+            except Exception as e:  # noqa
+                out.append(V(f"recipe {act['op']} | infeasible-accepted-on-rebake | step={e2.step_kind(act)}",
+                             f"bake() number {attempt} raised {type(e).__name__}", case))
+                break
     if b['ok']:
-        act = case['program'][-1]
         for name, o in sorted(b['results'].items()):
             units = [o] if not e1.is_plate(o) else list(o.wells.flatten())
             for c in units:
